@@ -143,12 +143,12 @@ PROPS = {
         'not_decided': ['maximum-likelihood optimality: W\'U^-1W c = W\'U^-1 mu to rounding accuracy'],
     },
     'C07': {
-        'technique': 'Kani loop-free harnesses on Excitation::{start,get,end}, Random::rnd, Mseq::next; Verus contracts on the extracted text of RingBuffer and Excitation::{voiced_frame, unvoiced_frame}',
+        'technique': 'Kani loop-free harnesses on Excitation::{start,get,end}, Random::rnd, Mseq::next; Verus contracts on the extracted text of RingBuffer and Excitation::{start, end, get, voiced_frame, unvoiced_frame}',
         'level_text': 'complete (loop-free, full symbolic f64 domain within the stated envelope 2 <= T0 <= 4800) proof of the pulse-train step contract and its invariant 0 <= counter < T0; LCG / M-sequence recurrences for all states; unbounded proof (any low-pass order) that one voiced sample adds noise*(delta - h[i]) + pulse*h[i] to ring-buffer slot index+i (mod n) and one unvoiced sample adds the noise at the centre slot; Kani: one full get() step for nlpf = 3',
-        'level_note': 'PARTIAL: noise statistics (zero mean, unit variance, whiteness) and exp/sqrt accuracy are not decided; sqrt is an uninterpreted stub; the glide increment is checked as dataflow only; pitch clamp in Vocoder::synthesize not covered',
+        'level_note': 'PARTIAL: noise statistics (zero mean, unit variance, whiteness) and exp/sqrt accuracy are not decided; sqrt is an uninterpreted stub; the glide increment (T0_new - T0_prev) / fperiod, the restart at a voicing boundary and the per-sample bookkeeping of Excitation::{start, get, end} are proved on the real text with IEEE ops uninterpreted; the pitch clamp is in unit vocoder',
         'verus': ['ringbuf', 'vocoder'],
         'assumptions': ['sqrt returns a finite non-negative value (stub)'], 'trusted_base': [],
-        'not_decided': ['zero-mean unit-variance white noise', 'pulse height equals sqrt(T0) numerically (libm)', 'linear glide value (p - prev)/fperiod'],
+        'not_decided': ['zero-mean unit-variance white noise', 'pulse height equals sqrt(T0) numerically (libm)'],
     },
     'C12': {
         'technique': 'Verus contracts on the extracted text of MlpgMatrix::par, MlpgGlobalVariance::apply_gv / parmgen and Engine::generator; Kani harnesses on MlpgGlobalVariance::apply_gv and the switch-expansion hole',
